@@ -30,7 +30,8 @@ INITS = ["uniform_", "normal_", "xavier_uniform_", "xavier_normal_", "kaiming_un
 def programs(draw, max_len=7):
     steps = []
     for _ in range(draw(st.integers(2, max_len))):
-        k = draw(st.sampled_from(["rand", "randn", "normal", "randint", "init", "layer", "dropout", "split", "train", "train", "fixed"]))
+        k = draw(st.sampled_from(["rand", "randn", "normal", "randint", "init", "layer", "dropout", "split", "train", "train", "fixed",
+                                  "apply_init"]))
         s = {"k": k}
         if k in ("rand", "randn", "normal", "randint"):
             s["shape"] = draw(st.sampled_from([[3], [2, 3], [2, 2, 2], [1]]))
@@ -44,6 +45,8 @@ def programs(draw, max_len=7):
             s["kind"] = draw(st.sampled_from(["linear", "conv1d", "conv2d", "bn", "bn", "bn2d"])); s["i"] = draw(st.integers(1, 3)); s["o"] = draw(st.integers(1, 4))
             if s["kind"].startswith("bn"):
                 s["affine"] = draw(st.booleans()); s["momentum"] = draw(st.sampled_from([0.1, None, 0.5]))
+        elif k == "apply_init":
+            s["n"] = draw(st.integers(3, 7)); s["fn"] = draw(st.sampled_from(["xavier_uniform_", "kaiming_normal_", "normal_"]))
         elif k == "dropout":
             s["p"] = draw(st.sampled_from([0.2, 0.5, 0.8])); s["shape"] = draw(st.sampled_from([[6], [3, 4]]))
         elif k == "split":
@@ -68,7 +71,7 @@ def programs(draw, max_len=7):
 
 def _nt(c):
     kinds = {s["k"] for s in c["prog"]}
-    rnd = kinds & {"rand", "randn", "normal", "randint", "init", "layer", "dropout", "split", "train"}
+    rnd = kinds & {"rand", "randn", "normal", "randint", "init", "layer", "dropout", "split", "train", "apply_init"}
     return len(rnd) >= 2 and bool(kinds & {"fixed", "train"})
 
 
